@@ -3,7 +3,7 @@
    in a reachable state that still owes an answer, each of its steps decreases the variant mu, and when it has
    nothing left to do every push has its answer, every sub-push its result and every worker is empty. *)
 From Coq Require Import List NArith ZArith Bool Lia Arith.
-From Qryn Require Import model.Ingest model.PushHandler model.IngestSpec model.IngestSched proofs.IngestBase proofs.IngestAck
+From Qryn Require Import model.Ingest model.PushHandler model.IngestSpec model.IngestSched model.IngestFresh proofs.IngestBase proofs.IngestAck
   proofs.IngestSpecProofs proofs.IngestHandler proofs.IngestDrain proofs.IngestLive.
 Import ListNotations.
 
@@ -713,4 +713,27 @@ Proof.
   apply (IA h hd E). unfold all_done in D. apply andb_true_iff in D as [_ D]. rewrite forallb_forall in D.
   specialize (D hd (nth_error_In _ _ E)). unfold handler_done in D. apply andb_true_iff in D as [D _].
   apply andb_true_iff in D as [_ D]. destruct (h_answer hd); [discriminate|discriminate].
+Qed.
+
+(* ---------------------------------------------------------------- non-vacuity *)
+(* the hypotheses are met by a state with an open push, a failed INSERT behind it, a retry to come and a direct
+   request waiting in a worker; whether the database then accepts or refuses every INSERT, the scheduler ends with
+   the push answered: success in the first case, an error (retries exhausted) in the second *)
+Example live_demo :
+  let tr := firstn 9 demo_trace in
+  forallb (act_live (sig_of_cfg demo_cfg)) tr = true /\
+  exists g es, grun (ginit demo_cfg 2) tr = Some (g, es) /\ all_done g = false /\ mu g = 42 /\
+    (let '(g1, tr1, es1) := run_sched (fun _ _ => true) (mu g) g in
+       all_done g1 = true /\ length tr1 = 15 /\
+       In (EAnswer 0 [(KSeries, table_of 4 [5%N]); (KSamples, table_of 5 [1%N; 2%N])] true) es1) /\
+    (let '(g2, tr2, es2) := run_sched (fun _ _ => false) (mu g) g in
+       all_done g2 = true /\
+       In (EAnswer 0 [(KSeries, table_of 4 [5%N]); (KSamples, table_of 5 [1%N; 2%N])] false) es2).
+Proof.
+  cbv zeta. split; [vm_compute; reflexivity|].
+  destruct (grun (ginit demo_cfg 2) (firstn 9 demo_trace)) as [[g es]|] eqn:E; [|vm_compute in E; discriminate].
+  exists g, es. split; [reflexivity|]. vm_compute in E. inversion E; subst. clear E.
+  split; [vm_compute; reflexivity|]. split; [vm_compute; reflexivity|]. split.
+  - vm_compute. split; [reflexivity|]. split; [reflexivity|]. repeat (first [left; reflexivity|right]).
+  - vm_compute. split; [reflexivity|]. repeat (first [left; reflexivity|right]).
 Qed.
